@@ -486,7 +486,7 @@ func c38Run(b *c38Beh, scratch string) M {
 	} else if escape != "" {
 		what = escape + " | " + what
 	}
-	rec := M{"ok": false, "step": step, "what": what}
+	rec := M{"ok": false, "step": step, "what": what, "escape": escape != ""}
 	if len(b.Dev) == 1 {
 		if _, w2 := c38Check(b, b.Dev[0], obs); w2 == "" {
 			rec["dev"] = "Dev_C38_DeferredMetaByPath"
